@@ -88,7 +88,7 @@ func runC12(c *core.Ctx) {
 	// R12.3 / R12.4
 	for _, rel := range []string{"server", "orcas", "handlers"} {
 		for _, fn := range c.P.RepoFuncs(rel) {
-			checkRecover(c, fn)
+			checkRecover(c, fn, "R12.3")
 		}
 	}
 	loop := c.P.Func("server", "(*DefaultServer).Loop")
@@ -270,7 +270,7 @@ func isRecoverResult(v ssa.Value) bool {
 }
 
 // checkRecover: R12.3 for one function.
-func checkRecover(c *core.Ctx, fn *ssa.Function) {
+func checkRecover(c *core.Ctx, fn *ssa.Function, rule string) {
 	ssax.Instrs(fn, func(ins ssa.Instruction) {
 		call, ok := ins.(*ssa.Call)
 		if !ok {
@@ -302,7 +302,7 @@ func checkRecover(c *core.Ctx, fn *ssa.Function) {
 			}
 		}
 		if ifi == nil {
-			c.Undecided("R12.3", key, pos, "recover() result is not tested against nil by an if: idiom not recognised")
+			c.Undecided(rule, key, pos, "recover() result is not tested against nil by an if: idiom not recognised")
 			return
 		}
 		isAbort := func(ins ssa.Instruction) bool {
@@ -314,10 +314,10 @@ func checkRecover(c *core.Ctx, fn *ssa.Function) {
 			Avoid:  isAbort,
 		}.FromBlock(nonNilSucc)
 		if hit != nil {
-			c.Violate("R12.3", key, pos, "a recovered panic can reach the normal return at "+c.P.Pos(hit.Pos())+" without panic(r) or abort: the panic is swallowed and the connection loop never learns of it",
+			c.Violate(rule, key, pos, "a recovered panic can reach the normal return at "+c.P.Pos(hit.Pos())+" without panic(r) or abort: the panic is swallowed and the connection loop never learns of it",
 				ssax.BlockTrail(c.P.Fset, trail)...)
 		} else {
-			c.OK("R12.3", key, pos, "non-nil branch ends in panic(r) or abort")
+			c.OK(rule, key, pos, "non-nil branch ends in panic(r) or abort")
 		}
 	})
 }
